@@ -236,6 +236,32 @@ pub fn check_loc(r: &mut Recorder, input: &[u8], exp: &Value) {
                 Err(at) => r.dis(&["C01"], &format!("panic@{}", short_at(&at)), det(input, json!(null), json!({"api":"canonicalize","panic":at}))),
             }
             check_loc_value(r, input, l, "parsed");
+            // C13: the id is what LanguageIdentifier reads from the part before the first
+            // singleton, and Locale -> LanguageIdentifier drops exactly the extensions
+            if zone == "accept" {
+                let mut end = input.len();
+                let mut start = 0usize;
+                let mut first = true;
+                for (idx, tok) in input.split(|c| *c == b'-' || *c == b'_').enumerate() {
+                    let _ = idx;
+                    if !first && tok.len() == 1 {
+                        end = start.saturating_sub(1);
+                        break;
+                    }
+                    first = false;
+                    start += tok.len() + 1;
+                }
+                match guard(|| LanguageIdentifier::from_bytes(&input[..end])) {
+                    Ok(Ok(li)) => {
+                        let conv: LanguageIdentifier = l.clone().into();
+                        if li != l.id || conv != l.id || proj_li(&conv) != exp["val"]["id"] {
+                            r.dis(&["C13"], "locale-id-differs-from-langid-of-prefix", det(input, exp["val"]["id"].clone(), json!({"prefix": show(&input[..end]), "langid": proj_li(&li), "locale_id": proj_li(&l.id)})));
+                        }
+                    }
+                    other => r.dis(&["C13"], "langid-rejects-locale-prefix", det(input, exp["val"]["id"].clone(), json!({"prefix": show(&input[..end]), "observed": format!("{:?}", other.map(|x| x.map(|y| y.to_string())))}))),
+                }
+                r.stat("c13_prefix");
+            }
             r.stat("loc_accepted");
         }
         Err(_) => {
@@ -360,6 +386,7 @@ pub fn check_sub(r: &mut Recorder, c: &Value) {
                     if bytes(&x.to_le_bytes()) != *exp_raw {
                         r.dis(&["C17"], "Language-raw-form", det(&s, exp_raw.clone(), bytes(&x.to_le_bytes())));
                     }
+                    r.raw_form(0, x, l.as_str());
                     let back = unsafe { Language::from_raw_unchecked(x) };
                     if back != l || back.as_str() != l.as_str() {
                         r.dis(&["C17"], "Language-raw-roundtrip", det(&s, json!(l.as_str()), json!(back.as_str())));
@@ -375,6 +402,7 @@ pub fn check_sub(r: &mut Recorder, c: &Value) {
             if bytes(&x.to_le_bytes()) != c["raw"][1] {
                 r.dis(&["C17"], "Script-raw-form", det(&s, c["raw"][1].clone(), bytes(&x.to_le_bytes())));
             }
+            r.raw_form(1, x as u64, v.as_str());
             let back = unsafe { Script::from_raw_unchecked(x) };
             if back != v || back.as_str() != v.as_str() {
                 r.dis(&["C17"], "Script-raw-roundtrip", det(&s, json!(v.as_str()), json!(back.as_str())));
@@ -388,6 +416,7 @@ pub fn check_sub(r: &mut Recorder, c: &Value) {
             if bytes(&x.to_le_bytes()) != c["raw"][2] {
                 r.dis(&["C17"], "Region-raw-form", det(&s, c["raw"][2].clone(), bytes(&x.to_le_bytes())));
             }
+            r.raw_form(2, x as u64, v.as_str());
             let back = unsafe { Region::from_raw_unchecked(x) };
             if back != v || back.as_str() != v.as_str() {
                 r.dis(&["C17"], "Region-raw-roundtrip", det(&s, json!(v.as_str()), json!(back.as_str())));
@@ -401,6 +430,7 @@ pub fn check_sub(r: &mut Recorder, c: &Value) {
             if bytes(&x.to_le_bytes()) != c["raw"][3] {
                 r.dis(&["C17"], "Variant-raw-form", det(&s, c["raw"][3].clone(), bytes(&x.to_le_bytes())));
             }
+            r.raw_form(3, x, v.as_str());
             let back = unsafe { Variant::from_raw_unchecked(x) };
             if back != v || back.as_str() != v.as_str() {
                 r.dis(&["C17"], "Variant-raw-roundtrip", det(&s, json!(v.as_str()), json!(back.as_str())));
@@ -659,8 +689,8 @@ pub fn check_meta(r: &mut Recorder, c: &Value) {
             if !same_loc {
                 r.dis(&["C09"], &format!("meta-locale-{}", c["tr"].as_str().unwrap_or("?")),
                       json!({"a": show(&a), "b": show(&bb), "a_bytes": bytes(&a), "b_bytes": bytes(&bb), "transform": c["tr"],
-                             "ra": la.as_ref().map(|x| x.to_string()).map_err(|e| format!("{:?}", e)),
-                             "rb": lb.as_ref().map(|x| x.to_string()).map_err(|e| format!("{:?}", e))}));
+                             "ra": format!("{:?}", la.as_ref().map(|x| x.to_string()).map_err(|e| format!("{:?}", e))),
+                             "rb": format!("{:?}", lb.as_ref().map(|x| x.to_string()).map_err(|e| format!("{:?}", e)))}));
             }
             let same_li = match (&ia, &ib) {
                 (Ok(x), Ok(y)) => x == y && x.to_string() == y.to_string(),
@@ -670,8 +700,8 @@ pub fn check_meta(r: &mut Recorder, c: &Value) {
             if !same_li {
                 r.dis(&["C09"], &format!("meta-langid-{}", c["tr"].as_str().unwrap_or("?")),
                       json!({"a": show(&a), "b": show(&bb), "a_bytes": bytes(&a), "b_bytes": bytes(&bb), "transform": c["tr"],
-                             "ra": ia.as_ref().map(|x| x.to_string()).map_err(|e| format!("{:?}", e)),
-                             "rb": ib.as_ref().map(|x| x.to_string()).map_err(|e| format!("{:?}", e))}));
+                             "ra": format!("{:?}", ia.as_ref().map(|x| x.to_string()).map_err(|e| format!("{:?}", e))),
+                             "rb": format!("{:?}", ib.as_ref().map(|x| x.to_string()).map_err(|e| format!("{:?}", e)))}));
             }
         }
     }
